@@ -4,7 +4,7 @@ META = {
     "category": "proof",
     "text": "Lean 4 theorems: each parallel shape of lib/query (slot-wise Run callbacks, per-worker lists concatenated in worker order for filter/join, per-worker key maps merged for GROUP BY) equals a sequential specification for EVERY cutting of the record range into contiguous chunks, hence is independent of --cpu and of the schedule; the real cutting function RecordRange is regenerated from the source and proved to tile [0,len) in order (C13's recordRange_tiles); the slot bookkeeping that decides the worker number (AssignRoutineNumber, Release, Done, NewGoroutineTaskManager's literal, Flags.SetCPU) is regenerated too and proved: 1 <= n <= --cpu in every reachable state, shared count = sum of outstanding slots over every history (never negative, nothing leaks), single worker below the threshold, and end to end the assigned workers' ranges tile [0,len) (assigned_ranges_tile). Tied to /repo by (a) the regenerated definitions + a model/impl comparison of worker numbers, ranges, slot histories (new/done sequences) and SetCPU, (b) a direct law check on the implementation: the same program run at --cpu 1,2,3,4,8,16, twice each, on tables of 80k-1/80k/80k+1 rows must give identical result rows, order and written file bytes (22+ query shapes incl. joins driven by the short and by the long table, multi-analytic queries, user-defined aggregates / functions; 6 DML programs)",
     "design_ref": "DESIGN.md section 5, C12",
-    "note": "trusted: Lean kernel; harness; the Go scheduler itself is outside the model, which is why the chunking/schedule is universally quantified in the theorems rather than sampled; the step from the Go closures to the three shapes is by reading (C13's extractor classifies every worker closure)",
+    "note": "a WHOLE query: Model/Pipeline.lean composes the shapes into the clause pipeline of a SELECT (WHERE, GROUP BY, HAVING, select list, ORDER BY, OFFSET, LIMIT, Fix) with an arbitrary cut at every stage; Props/C12Pipe: pipeline_eq_spec / pipeline_indep_of_cuts (any two runs, whatever cuts each stage got, return the same rows in the same order), the stage order and the primitive under every View method regenerated from query.go / view.go (extract/pipefacts: gen_clause_order, gen_stage_shapes). trusted: Lean kernel; harness; the Go scheduler itself is outside the model, which is why the chunking/schedule is universally quantified in the theorems rather than sampled; the step from the Go closures to the three shapes is by reading (C13's extractor classifies every worker closure)",
     "technique": "Lean 4 machine-checked proof (chunk-independence / refinement to a sequential spec) + regenerated RecordRange and slot bookkeeping + multi---cpu differential runs of the real implementation",
 }
 
@@ -13,7 +13,8 @@ def run(run):
     q = run.tier == "quick"
     run.regen("recordrange", ["go", "run", "-C", "extract/parfacts", ".", "recordrange"], "Csvq/Gen/RecordRange.lean")
     run.regen("routine", ["go", "run", "-C", "extract/parfacts", ".", "routine"], "Csvq/Gen/RoutineNumber.lean")
-    run.obligations_for(["Csvq.Props.C12"])
+    run.regen("pipefacts", ["go", "run", "-C", "extract/pipefacts", "."], "Csvq/Gen/PipeFacts.lean")
+    run.obligations_for(["Csvq.Props.C12", "Csvq.Props.C12Pipe"])
     run.stream("c12", 300 if q else 3000, timeout=3000)
     if not q:
         for k in range(1, 3):
